@@ -109,9 +109,56 @@ def x_resolved(self, st, r, name):
             rv = x_module_table(self, st, r[2], r[1])
             if rv is not KeyError:
                 return rv
+            rv = x_eval_module_expr(self, st, r[2], r[1])
+            if rv is not KeyError:
+                return rv
             return Top("global:" + name)
         return self.x_lift(st, v)
     raise U(self)("resolved %r" % (r,))
+
+
+class _ModuleScope(object):
+    """stands in for 'the current function' while a module-level expression is evaluated"""
+    cls = None
+    kind = "function"
+    name = "<module>"
+
+    def __init__(self, mod):
+        self.module = mod
+        self.file = mod.relpath
+        self.fullname = mod.name + ":<module>"
+        self.qualname = "<module>"
+        self.node = mod.tree
+        self.lineno = 1
+
+
+def x_eval_module_expr(self, st, node, mod):
+    """A module-level constant computed by an expression (a comprehension over another table, a tuple(...) call ...):
+    evaluated in the module's scope.  KeyError unless it evaluates to one value without forking."""
+    if not isinstance(node, (ast.Call, ast.ListComp, ast.SetComp, ast.DictComp, ast.GeneratorExp, ast.BinOp, ast.Subscript)):
+        return KeyError
+    depth = getattr(self, "_modexpr_depth", 0)
+    if depth > 3:
+        return KeyError
+    if isinstance(node, ast.Call):
+        fn = self.ix.resolve_expr(mod, node.func)
+        if not (isinstance(node.func, ast.Name) and node.func.id in ("tuple", "list", "dict", "set", "frozenset", "sorted")) and not isinstance(fn, FuncInfo):
+            return KeyError
+    saved, saved_frames = self.cur_func, st.frames
+    self.cur_func = _ModuleScope(mod)
+    self._modexpr_depth = depth + 1
+    st.frames = [{}]
+    try:
+        outs = self.eval(st, node)
+    except AnalysisError:
+        outs = []
+    finally:
+        self.cur_func = saved
+        self._modexpr_depth = depth
+        st.frames = saved_frames
+    if len(outs) == 1 and outs[0][1] == "val" and outs[0][0] is st and not isinstance(outs[0][2], Top):
+        return outs[0][2]
+    return KeyError
 
 
 def x_module_table(self, st, node, mod, _depth=0):
@@ -312,6 +359,10 @@ def x_run_comprehension(self, st, node, stmts, result):
     return res
 
 
+class _AbstractIteration(Exception):
+    """raised by the loop machinery when a comprehension with an accumulator meets an abstract iterable"""
+
+
 def x_comprehend(self, st, node, kind):
     cache = getattr(node, "_desugared", None)
     if cache is None:
@@ -322,9 +373,22 @@ def x_comprehend(self, st, node, kind):
             inner = [ast.Expr(value=ast.Call(func=ast.Attribute(value=acc, attr="append" if kind == "list" else "add", ctx=ast.Load()),
                                              args=[node.elt], keywords=[]))]
         cache = node._desugared = _comp_loops(node, inner)
-    ref = st.alloc(HObj(kind, kind=kind, items=[]))
-    st.frames[-1]["@acc"] = ref
-    outs = x_run_comprehension(self, st, node, cache, lambda s, k, v, fr: (s, "val", fr.get("@acc", ref)))
+    # exact only when every iterable is concrete: an accumulator that grows inside an abstract loop never reaches a fixpoint
+    probe = st.fork()
+    ref = probe.alloc(HObj(kind, kind=kind, items=[]))
+    probe.frames[-1]["@acc"] = ref
+    self._in_comprehension = getattr(self, "_in_comprehension", 0) + 1
+    try:
+        outs = x_run_comprehension(self, probe, node, cache, lambda s, k, v, fr: (s, "val", fr.get("@acc", ref)))
+    except _AbstractIteration:
+        outs = None
+    finally:
+        self._in_comprehension -= 1
+    if outs is None:
+        r2 = st.alloc(HObj(kind, kind=kind, items=None))
+        if kind == "list":
+            st.wobj(r2).base = "comp@%s" % getattr(node, "lineno", 0)
+        return [(st, "val", r2)]
     for (s, k, v) in outs:
         s.frames[-1].pop("@acc", None)
     return outs
